@@ -246,6 +246,15 @@ func propC09(re *rootEnv) func(*rapid.T) {
 					violate(t, "C09/nothing-unknown", "unknown value at %s after CopyTo", p)
 				}
 				c09Walk(t, re, re.view, reflect.ValueOf(src).Elem(), before, cur, "", h)
+				// "takes the source's value" at the level Terraform sees: a time that was non-null is rendered like
+				// a fresh copy of the same source renders it (same instant in another zone is another string)
+				F := re.emptyObject()
+				var ferrs []string
+				if p := safely(func() { ferrs = errorDiags(re.fn.To(ctx, src, &F)) }); p == "" && len(ferrs) == 0 {
+					if fv, err := re.tfOf(F); err == nil {
+						c09Rendering(t, re.view, before, cur, fv, "", h)
+					}
+				}
 			}
 		}
 	}
@@ -1302,4 +1311,29 @@ func nilEmptyContainers(v attr.Value) attr.Value {
 		return c
 	}
 	return v
+}
+
+// c09Rendering: singular time attributes that were non-null before and are non-null now equal, as
+// Terraform values, what a fresh copy of the same source holds (through singular nested messages).
+func c09Rendering(t *rapid.T, n *spec.Node, before, after, fresh tftypes.Value, path string, h *history) {
+	bm, am, fm := attrsOf(before), attrsOf(after), attrsOf(fresh)
+	for _, e := range n.Entries {
+		if e.Placeholder || e.F.Card != "" || e.F.Oneof != "" {
+			continue
+		}
+		b, a, f := bm[e.Attr], am[e.Attr], fm[e.Attr]
+		if !present(b) || !present(a) || !present(f) {
+			continue
+		}
+		p := path + "." + e.Attr
+		switch {
+		case e.F.Kind == spec.KMessage && e.Child != nil:
+			c09Rendering(t, e.Child, b, a, f, p, h)
+		case e.F.Kind == spec.KTime:
+			if !a.Equal(f) {
+				violate(t, "C09/scalar-follows-source/rendering/"+entryClass(e, false, 0), "at %s: attribute %s, a fresh copy of the same source gives %s (before: %s)\nhistory: %s",
+					p, tfString(a), tfString(f), tfString(b), strings.Join(h.lines, " ; "))
+			}
+		}
+	}
 }
